@@ -109,7 +109,13 @@ def _run(chk):
     procs = int(os.environ.get('VERIF_PROCS', '0') or 0) or min(12, os.cpu_count() or 1)
     # ------------------------------------------------------------------ translator + Lean
     from .. import translate_effects as T
-    info = T.write_generated()
+    try:
+        info = T.write_generated()
+    except Exception as e:  # noqa - the translator must not abort the check: the stale generated model is reported as broken
+        import traceback
+        info = {'changed_files': [], 'files': {}, 'conservative_constructs': {}, 'index_errors': []}
+        chk.lean_problems.append('translator failed, the generated effect model is stale: ' + type(e).__name__ + ': ' + str(e)[:300] +
+                                 ' | ' + traceback.format_exc()[-500:])
     for rel in info.get('changed_files', []):
         chk.generated_changed.append('PeptVerif/Generated/' + rel)
     chk.count('generated_module_files', len([r for r in info['files'] if r.startswith('Effects/M_')]))
@@ -128,6 +134,11 @@ def _run(chk):
         'unseeded shuffle() is random by contract: excluded from history independence and from the generator clause',
     ]
     chk.notes.append('declared outside: ' + json.dumps(D.DECLARED_OUTSIDE))
+    chk.notes.append('conservative_constructs (translated as may-write / may-share on everything they mention): ' +
+                     json.dumps(info.get('conservative_constructs', {})))
+    chk.count('conservative_constructs', sum(len(v) for v in info.get('conservative_constructs', {}).values()))
+    if info.get('index_errors'):
+        chk.notes.append('modules that could not be indexed: ' + json.dumps(info['index_errors']))
 
     st = _setup_state(chk, 4 if tier == 'quick' else 8)
     phase('state')
@@ -146,9 +157,17 @@ def _run(chk):
     apis = {a for a, _ in surface}
     covered = {s.api for s in st.specs}
     missing = sorted(apis - covered - set(D.DECLARED_OUTSIDE))
-    chk.oracle('api_surface_exercised', [m for m in missing] or ['<none missing>'],
-               lambda m: None if m == '<none missing>' else f'public API member {m} accepts an annotation/dict/list but has no call spec '
-                                                             f'and is not declared outside')
+    all_public = {a for a, _ in D.api_surface(all_public=True)} | {'Fragmenter'}
+    vanished = sorted(covered - all_public)
+
+    def o_surface(m):
+        if m == '<none missing>':
+            return None
+        if m in vanished:
+            return f'the call specs exercise {m}, which is no longer a public callable of the package (removed or renamed)'
+        return f'public API member {m} accepts an annotation/dict/list but has no call spec and is not declared outside'
+    chk.oracle('api_surface_exercised', (missing + vanished) or ['<none missing>'], o_surface)
+    _record(chk, 'specs_fit_api', [{'evals': len(st.specs), 'failures': st.spec_broken}], 'specfit')
     chk.count('api_members', len(apis))
 
     # ------------------------------------------------------------------ corpus (witnesses of repaired defects) first
@@ -171,7 +190,7 @@ def _run(chk):
     # ------------------------------------------------------------------ single calls: writes, globals, shared state, determinism
     full0 = D.db_stamp_full()
     rng0 = D.rng_stamp()
-    res = _pool_map(D.task_single, list(range(len(st.bases))), procs)
+    res = _pool_map(D.g_single, list(range(len(st.bases))), procs)
     observed = {}
     st.shares = [r['shares'] for r in res]
     for si, r in enumerate(res):
@@ -183,18 +202,18 @@ def _run(chk):
 
     # ------------------------------------------------------------------ history independence
     pair_shapes = list(range(len(st.bases)))
-    res = _pool_map(D.task_pairs, pair_shapes, procs)
+    res = _pool_map(D.g_pairs, pair_shapes, procs)
     _record(chk, 'pairs_exhaustive', res, 'pairs')
     phase('pairs')
     chk.exhaustive = True
-    res = _pool_map(D.task_fragmenter, pair_shapes, procs)
+    res = _pool_map(D.g_fragmenter, pair_shapes, procs)
     _record(chk, 'fragmenter_object_histories', res, 'fragmenter')
     phase('fragmenter')
     ntrip = 4000 if tier == 'quick' else 200000
     if chk.broken():
         ntrip *= 2
     chunks = max(1, procs)
-    res = _pool_map(D.task_triples, [(chk.seed * 1000 + i, ntrip // chunks + 1) for i in range(chunks)], procs)
+    res = _pool_map(D.g_triples, [(chk.seed * 1000 + i, ntrip // chunks + 1) for i in range(chunks)], procs)
     _record(chk, 'triples_random', res, 'triples')
     phase('triples')
 
@@ -247,9 +266,8 @@ def _static_compare(chk, st, observed, info):
     for n, r in zip(variants, replies[:-3]):
         if r not in ('unknown', 'bad-op'):
             verdict[n] = _parse_verdict(r)
-    chk.samples.append({'driver': 'verdict', 'mass': replies[variants.index('mass')],
-                        'ProFormaAnnotation.slice[inplace]': replies[variants.index('ProFormaAnnotation.slice[inplace]')],
-                        'shuffle': replies[variants.index('shuffle')]})
+    chk.samples.append({'driver': 'verdict', **{k: replies[variants.index(k)] for k in
+                                                ('mass', 'ProFormaAnnotation.slice[inplace]', 'shuffle') if k in variants}})
 
     # (1) the explicit outside list is the same on both sides, and every API member has a verdict or is outside
     def o_cov(n):
